@@ -218,13 +218,14 @@ Proof.
   - (* ploidy 2 *)
     cbn [call_rep call_ok call_normal] in *. set (ph := if p then 1 else 0).
     assert (Hph : ph = 0 \/ ph = 1) by (subst ph; destruct p; lia).
+    assert (Hg_eq : (if p then gt_index (Z.of_N a0) (Z.of_N a0 + Z.of_N a1) else gt_index (Z.of_N a0) (Z.of_N a1))
+                    = gt_index (Z.of_N a0) (if p then Z.of_N a0 + Z.of_N a1 else Z.of_N a1)) by (destruct p; reflexivity).
+    rewrite Hg_eq. clear Hg_eq.
     apply andb_true_iff in Hok as [Hk65 Hg].
-    set (j := Z.of_N a0) in *.
     set (k := if p then Z.of_N a0 + Z.of_N a1 else Z.of_N a1) in *.
-    assert (Hjk : 0 <= j <= k).
-    { subst j k. destruct p; cbn [orb] in Hn; lia. }
-    replace (if p then gt_index j (Z.of_N a0 + Z.of_N a1) else gt_index j (Z.of_N a1)) with (gt_index j k)
-      by (subst k; destruct p; reflexivity).
+    assert (Hjk : 0 <= Z.of_N a0 <= k).
+    { subst k. destruct p; cbn [orb] in Hn; lia. }
+    set (j := Z.of_N a0) in *.
     pose proof (gt_index_nonneg j k ltac:(lia) ltac:(lia)) as Hg0. set (g := gt_index j k) in *.
     replace (((4 + ph + 8 * g) / 2) mod 4) with 2 by (destruct Hph as [-> | ->]; lia).
     cbn [Z.eqb Pos.eqb].
